@@ -167,7 +167,9 @@ def extract_vars(statement):
 
     variables = [v for v in variables if v[2] != ""]
 
-    return sorted(list(set(variables)), key=lambda var: var[2])
+    # Sort by the name of the variable and then by the rest of the entry. Otherwise, the order of
+    # the entries that refer to the same variable is the iteration order of the set.
+    return sorted(list(set(variables)), key=lambda var: (var[2], var[0], var[1]))
 
 
 def func_has_ctx_arg(func):
